@@ -1,5 +1,5 @@
 (* Model of grounding and execution: models/{grounding_utils,grounded_precondition,grounded_effect,pddl_operator}.py
-   on the tree after the repairs D09-D14 (see known_findings.json).
+   on the tree after the repairs D09-D14, D35-D37 (see known_findings.json).
    Operator.ground() -> ground_action;  Operator.is_applicable -> is_applicable;  Operator.apply -> apply_op.
    Sets are lists in iteration order; apply_op takes the order in which the effect groups are visited.
    Facts are matched by their untyped text: here by (predicate, argument list). *)
@@ -235,10 +235,10 @@ Section Apply.
     do vals <- mapM (eval_numeric_effect prev) (gg_num g);
     Ok {| facts := f2; fluents := fold_left (fun fl av => fluent_set (fst av) (snd av) fl) vals (fluents cur) |}.
 
-  Definition antecedents_hold (g : ggroup) (s : state) : result bool :=
+  Definition antecedents_hold (objs : option objects) (g : ggroup) (s : state) : result bool :=
     match gg_ante g with
     | None => Ok true
-    | Some a => eval_g dom eps None s a                      (* no object table is passed to antecedents *)
+    | Some a => eval_g dom eps objs s a                      (* the operator's object table (after the D37/D40 repair) *)
     end.
 
   (* reorder the groups by a list of indices (the iteration order of the effect set) *)
@@ -256,7 +256,7 @@ Section Apply.
                             let pm := dset (ga_pm ga) (ue_var ue) (fst o) in
                             let ce := ue_ce ue in
                             do g <- ground_group dom pm (Some (ce_ante ce)) (ce_disc ce) (ce_num ce);
-                            do h <- antecedents_hold g prev;
+                            do h <- antecedents_hold (Some os) g prev;
                             if h then apply_group_m prev cur2 g else Ok cur2
                           else Ok cur2)
                        (reorder (ma_univ (ga_action ga)) uorder) cur1)
@@ -269,7 +269,7 @@ Section Apply.
     if negb okb && negb allow then Err EValue
     else
       do cur <- foldM (fun cur g =>
-                         do h <- (if skip then Ok true else antecedents_hold g prev);
+                         do h <- (if skip then Ok true else antecedents_hold objs g prev);
                          if h then apply_group_m prev cur g else Ok cur)
                       (reorder (ga_groups ga) order) prev;
       apply_universal ga objs uorder prev cur.
